@@ -106,4 +106,15 @@ def cText : List Nat → Option (List Nat)
 def heapCstr (s : List Nat) : Option (List Nat) :=
   if 0 ∈ s then none else some (s ++ [0])
 
+/-- `char::from(key as u8)` for each of the ten selection keys (`c_int`s, stored unvalidated by the legacy setters
+`chewing_set_selKey` / `chewing_Configure`): the low byte as a Latin-1 code point -/
+def selKeysChars (keys : List Int) : List Nat := keys.map fun k => (k % 256).toNat
+
+/-- `chewing_config_get_str("chewing.selection_keys")`: the characters collected into a `String` (UTF-8) and handed out
+as `CString::new(string)`; `none` = ERROR (a key whose low byte is 0) -/
+def selKeysCStr (keys : List Int) : Option (List Nat) := heapCstr (utf8Encode (selKeysChars keys))
+
+/-- NOT the code (recorded for the refutation in Props/C15): the C string built from the raw low bytes -/
+def selKeysCStrRaw (keys : List Int) : Option (List Nat) := heapCstr (selKeysChars keys)
+
 end Chewing.CStr
